@@ -1320,7 +1320,9 @@ def gen_term(rng, profile, bn_ok):
             return ["F"] + list(rng.choice(DBLS))
         if r < 0.96:
             return ["F"] + list(rng.choice(DBLS)) + ["float"]
-        return ["I", rng.choice([1, 2, 3]), rng.choice(["int", "unsignedInt", "short"])]
+        # derived integer datatypes, with the boundary value 0 of the non-negative ones (mutant C08-5: `>= 0` -> `> 0` in
+        # term._well_formed_non_negative_integer made "0"^^xsd:nonNegativeInteger ill-typed, i.e. no longer a number)
+        return ["I", rng.choice([0, 1, 2, 3, 0]), rng.choice(["int", "unsignedInt", "short", "nonNegativeInteger", "nonNegativeInteger"])]
     if profile == "str":
         if r < 0.85:
             return ["S", rng.choice(STRS), ""]
